@@ -76,13 +76,15 @@ package tengo
 //@ func interface Object.BinaryOp
 //@   props C08 C09
 //@   assigns nothing
-//@   ensures cmp{C10,C01}: spec.known(view(self)) && spec.iscmp(op) && spec.ordered(view(self), view(rhs))
-//@              ==> res1 == nil && res0 == boolobj(spec.cmp(op, view(self), view(rhs)))
-//@   ensures cmp_unsupported{C10,C01}: spec.known(view(self)) && spec.iscmp(op) && !spec.ordered(view(self), view(rhs))
+//@   let a = old(view(self))
+//@   let b = old(view(rhs))
+//@   ensures cmp{C10,C01}: spec.known(a) && spec.iscmp(op) && spec.ordered(a, b)
+//@              ==> res1 == nil && res0 == boolobj(spec.cmp(op, a, b))
+//@   ensures cmp_unsupported{C10,C01}: spec.known(a) && spec.iscmp(op) && !spec.ordered(a, b)
 //@              ==> res0 == nil && res1 == ErrInvalidOperator
-//@   ensures arith{C01}: spec.arith_ok(op, view(self), view(rhs))
-//@              ==> res1 == nil && spec.sameval(view(res0), spec.arith(op, view(self), view(rhs)))
-//@   ensures arith_unsupported{C01}: spec.numeric(view(self)) && !spec.iscmp(op) && !spec.arith_ok(op, view(self), view(rhs))
+//@   ensures arith{C01}: spec.arith_ok(op, a, b)
+//@              ==> res1 == nil && spec.sameval(view(res0), spec.arith(op, a, b))
+//@   ensures arith_unsupported{C01}: spec.numeric(a) && !spec.iscmp(op) && !spec.arith_ok(op, a, b)
 //@              ==> res0 == nil && res1 == ErrInvalidOperator
 
 //@ func interface Object.IsFalsy
@@ -100,6 +102,8 @@ package tengo
 //@ func interface Object.Copy
 //@   props C08 C09
 //@   assigns nothing
+//@   ensures mut{C10,C09}: mutablekind(self) ==> fresh(result)
+//@   ensures scalar{C10}: spec.scalar(old(view(self))) ==> spec.eqv(view(result), old(view(self)))
 
 //@ func interface Object.IndexGet
 //@   props C08 C09
@@ -112,3 +116,64 @@ package tengo
 //@ func interface Object.CanCall
 //@   props C08 C09
 //@   assigns nothing
+
+// ---------------------------------------------------------------------------
+// Copy: an equal value sharing no mutable state (C10), frames for C09
+// ---------------------------------------------------------------------------
+
+//@ func (*Array).Copy
+//@   props C10 C09
+//@   assigns nothing
+//@   ensures kind: is(result, *Array) && fresh(result)
+//@   ensures length: len(result.(*Array).Value) == len(o.Value)
+//@   ensures storage: len(o.Value) > 0 ==> fresh(result.(*Array).Value)
+//@   ensures elems: forall i in 0..len(o.Value) :: mutablekind(old(o.Value[i])) ==> fresh(result.(*Array).Value[i])
+//@   loop 0 invariant idx: 0 <= rangeindex+1 && rangeindex+1 <= len(o.Value)
+//@   loop 0 invariant clen: len(c) == rangeindex+1
+//@   loop 0 invariant cfresh: cap(c) > 0 ==> fresh(c)
+//@   loop 0 invariant celems: forall i in 0..len(c) :: mutablekind(old(o.Value[i])) ==> fresh(c[i])
+
+//@ func (*ImmutableArray).Copy
+//@   props C10 C09
+//@   assigns nothing
+//@   ensures kind: is(result, *Array) && fresh(result)
+//@   ensures length: len(result.(*Array).Value) == len(o.Value)
+//@   ensures storage: len(o.Value) > 0 ==> fresh(result.(*Array).Value)
+//@   ensures elems: forall i in 0..len(o.Value) :: mutablekind(old(o.Value[i])) ==> fresh(result.(*Array).Value[i])
+//@   loop 0 invariant idx: 0 <= rangeindex+1 && rangeindex+1 <= len(o.Value)
+//@   loop 0 invariant clen: len(c) == rangeindex+1
+//@   loop 0 invariant cfresh: cap(c) > 0 ==> fresh(c)
+//@   loop 0 invariant celems: forall i in 0..len(c) :: mutablekind(old(o.Value[i])) ==> fresh(c[i])
+
+//@ func (*Map).Copy
+//@   props C10 C09
+//@   assigns nothing
+//@   ensures kind: is(result, *Map) && fresh(result) && fresh(result.(*Map).Value)
+//@   ensures elems: forall k string :: haskey(result.(*Map).Value, k)
+//@                    ==> haskey(o.Value, k) && (mutablekind(old(o.Value[k])) ==> fresh(result.(*Map).Value[k]))
+//@   loop 0 invariant celems: forall k string :: haskey(c, k)
+//@                    ==> haskey(o.Value, k) && (mutablekind(old(o.Value[k])) ==> fresh(c[k]))
+
+//@ func (*ImmutableMap).Copy
+//@   props C10 C09
+//@   assigns nothing
+//@   ensures kind: is(result, *Map) && fresh(result) && fresh(result.(*Map).Value)
+//@   ensures elems: forall k string :: haskey(result.(*Map).Value, k)
+//@                    ==> haskey(o.Value, k) && (mutablekind(old(o.Value[k])) ==> fresh(result.(*Map).Value[k]))
+//@   loop 0 invariant celems: forall k string :: haskey(c, k)
+//@                    ==> haskey(o.Value, k) && (mutablekind(old(o.Value[k])) ==> fresh(c[k]))
+
+//@ func (*Error).Copy
+//@   props C10 C09
+//@   requires o.Value != nil
+//@   assigns nothing
+//@   ensures kind: is(result, *Error) && fresh(result)
+//@   ensures payload: mutablekind(old(o.Value)) ==> fresh(result.(*Error).Value)
+
+//@ func (*Bytes).Copy
+//@   props C10 C09
+//@   assigns nothing
+//@   ensures kind: is(result, *Bytes) && fresh(result)
+//@   ensures length: len(result.(*Bytes).Value) == len(o.Value)
+//@   ensures storage: fresh(result.(*Bytes).Value)
+//@   ensures content: forall i in 0..len(o.Value) :: result.(*Bytes).Value[i] == old(o.Value[i])
